@@ -9,6 +9,10 @@
 
 #include <bitset>
 
+#ifndef VF_PART
+    #define VF_PART 0 // 0: arithmetic argument sweep + optional<T>/optional<U> cells; 1..3: argument zoo over lists with bool in every position (split for compile time)
+#endif
+
 namespace c07 {
 template <>
 struct Make<bool> {
@@ -252,6 +256,7 @@ void run_opt_cells(Cells& c);
 void run_all()
 {
     Cells c;
+#if VF_PART == 0
     arith_args(c, "variant<int,tracked-cm,pair<int,int>>", TL<int, TCM, PairII>{});
     arith_args(c, "variant<tracked-cm,tracked-cm2,int,char>", TL<TCM, TCM2, int, char>{});
     arith_args(c, "variant<int,tracked-cm>", TL<int, TCM>{});
@@ -269,6 +274,8 @@ void run_all()
     cell(c, "variant<int,Str>", "char const*", TL<int, Str>{}, static_cast<char const*>(kLit));
     cell(c, "variant<bool,Str>", "bool", TL<bool, Str>{}, true);
     cell(c, "variant<bool,int>", "int*", TL<bool, int>{}, static_cast<int*>(nullptr));
+    run_opt_cells(c);
+#elif VF_PART == 1
     // alternative lists with bool in every position (and some without), against the whole argument zoo
     all_args(c, "variant<bool,int>", TL<bool, int>{});
     all_args(c, "variant<int,bool>", TL<int, bool>{});
@@ -276,18 +283,22 @@ void run_all()
     all_args(c, "variant<int,bool,double>", TL<int, bool, double>{});
     all_args(c, "variant<int,double,bool>", TL<int, double, bool>{});
     all_args(c, "variant<bool,Str>", TL<bool, Str>{});
+#elif VF_PART == 2
+    // alternative lists with bool in every position (and some without), against the whole argument zoo
     all_args(c, "variant<Str,bool>", TL<Str, bool>{});
     all_args(c, "variant<long,Str,bool>", TL<long, Str, bool>{});
     all_args(c, "variant<bool,tracked-cm>", TL<bool, TCM>{});
     all_args(c, "variant<tracked-cm,bool>", TL<TCM, bool>{});
     all_args(c, "variant<char,bool,long>", TL<char, bool, long>{});
     all_args(c, "variant<bool>", TL<bool>{});
+#elif VF_PART == 3
+    // alternative lists with bool in every position (and some without), against the whole argument zoo
     all_args(c, "variant<bool,float>", TL<bool, float>{});
     zoo_args(c, "variant<int,double>", TL<int, double>{});
     zoo_args(c, "variant<int,tracked-cm,pair<int,int>>", TL<int, TCM, PairII>{});
     zoo_args(c, "variant<Unscoped,int>", TL<Unscoped, int>{});
     zoo_args(c, "variant<Scoped,bool>", TL<Scoped, bool>{});
-    run_opt_cells(c);
+#endif
     vf::sample("selection cells", "%u (variant, argument type[, previous index]) cells compared; %u skipped because exactly one library rejects the argument; %u rejected by both", c.compared, c.skipped, c.both_reject);
     // the skip list is long: split over several samples
     for (std::size_t off = 0, k = 0; off < c.skipped_list.size() && k < 6; off += 600, ++k) {
@@ -385,4 +396,12 @@ vf::Spec spec(vf::Tier)
 void run_case(vf::Case&) { run_all(); }
 } // namespace
 
+#if VF_PART == 0
 VF_MAIN("C07", "C07_select", spec, run_case)
+#elif VF_PART == 1
+VF_MAIN("C07", "C07_select_zoo1", spec, run_case)
+#elif VF_PART == 2
+VF_MAIN("C07", "C07_select_zoo2", spec, run_case)
+#else
+VF_MAIN("C07", "C07_select_zoo3", spec, run_case)
+#endif
